@@ -35,6 +35,9 @@ class Target:
         elif kind == "tophat":  # plateau likelihood: every supported point has the same (finite) value
             self.mu = np.zeros(n_dim)
             self.sig = np.ones(n_dim)
+        elif kind == "needle":  # one very narrow mode (sigma = 0.03% of the cube): log-likelihood range ~1e7, the first positive temperature is tiny
+            self.mu = np.linspace(-1.0, 1.0, n_dim) if n_dim > 1 else np.array([0.5])
+            self.sig = np.full(n_dim, 0.003)
         elif kind == "edge":  # posterior mass abuts the lower prior boundary
             self.mu = np.full(n_dim, lo)
             self.sig = np.full(n_dim, 1.0)
